@@ -11,6 +11,7 @@ import (
 	"net/http"
 	"regexp"
 	"strings"
+	"sync"
 
 	"github.com/rs/zerolog/log"
 )
@@ -62,6 +63,18 @@ var (
 	haproxyReqCaptureNeededFrom = "http://localhost:" + haproxyManagePort + "/capture_req_from"
 	haproxyReqCaptureFormAll    = "http://localhost:" + haproxyManagePort + "/capture_req_all"
 )
+
+var (
+	// haproxyEndpointsMutex serialises the requests that change what the proxy manages
+	haproxyEndpointsMutex sync.Mutex
+	// haproxyRequestSerial numbers the manage requests
+	haproxyRequestSerial uint64
+	// haproxyManagedSerial: the serial of the last request that asked the proxy to manage an endpoint
+	// (manageAllKey: to manage all). An un-manage scheduled before that request must leave it alone.
+	haproxyManagedSerial = map[string]uint64{}
+)
+
+const manageAllKey = "*"
 
 type HAProxyEndpointData struct {
 	Endpoint     string
@@ -217,6 +230,37 @@ func ManageHAProxyEndpoints(haproxyEndpoints *HAProxyEndpointsRequest) error {
 	return nil
 }
 
+// currentHAProxyRequestSerial returns the serial of the latest manage request
+func currentHAProxyRequestSerial() uint64 {
+	haproxyEndpointsMutex.Lock()
+	defer haproxyEndpointsMutex.Unlock()
+	return haproxyRequestSerial
+}
+
+// unmanageStaleHAProxyEndpoints un-manages the endpoints that no manage request newer than `serial`
+// has registered again
+func unmanageStaleHAProxyEndpoints(endpoints []*HAProxyEndpointData, serial uint64) error {
+	haproxyEndpointsMutex.Lock()
+	defer haproxyEndpointsMutex.Unlock()
+	staleEndpoints := []*HAProxyEndpointData{}
+	for _, endpoint := range endpoints {
+		if haproxyManagedSerial[endpoint.Endpoint] <= serial {
+			staleEndpoints = append(staleEndpoints, endpoint)
+		}
+	}
+	return unmanageHAProxyEndpoints(staleEndpoints)
+}
+
+// unmanageStaleGlobal removes manage-all unless a manage request newer than `serial` asked for it again
+func unmanageStaleGlobal(serial uint64) error {
+	haproxyEndpointsMutex.Lock()
+	defer haproxyEndpointsMutex.Unlock()
+	if haproxyManagedSerial[manageAllKey] > serial {
+		return nil
+	}
+	return unmanageGlobal()
+}
+
 func unmanageHAProxyEndpoints(unmanagedEndpoints []*HAProxyEndpointData) error {
 	for _, unmanagedEndpoint := range unmanagedEndpoints {
 		err := operateEndpoint(unmanagedEndpoint.Endpoint, http.MethodDelete, haproxyManagedEndpointURL)
@@ -244,6 +288,10 @@ func unmanageHAProxyEndpoints(unmanagedEndpoints []*HAProxyEndpointData) error {
 }
 
 func updateHAProxyEndpoints(haproxyEndpoints *HAProxyEndpointsRequest) error {
+	haproxyEndpointsMutex.Lock()
+	defer haproxyEndpointsMutex.Unlock()
+	haproxyRequestSerial++
+
 	if haproxyEndpoints.BodyNeededForAll {
 		if err := bodyFromAll(); err != nil {
 			log.Warn().Err(err).Msg("Failed to include body in message for all endpoints")
@@ -257,10 +305,12 @@ func updateHAProxyEndpoints(haproxyEndpoints *HAProxyEndpointsRequest) error {
 	}
 
 	if haproxyEndpoints.ManageAll {
+		haproxyManagedSerial[manageAllKey] = haproxyRequestSerial
 		return manageAll()
 	}
 
 	for _, managedEndpoint := range haproxyEndpoints.ManagedEndpoints {
+		haproxyManagedSerial[managedEndpoint.Endpoint] = haproxyRequestSerial
 		err := operateEndpoint(managedEndpoint.Endpoint, http.MethodPut, haproxyManagedEndpointURL)
 		if err != nil {
 			return fmt.Errorf("failed to manage endpoint '%v', error: %v",
